@@ -105,7 +105,7 @@ extern int mpt_notify_config(MPT_STRUCT(notify) *no, const MPT_INTERFACE(config)
 {
 	static const char con[] = "mpt.connect";
 	static const char bind[] = "mpt.listen";
-	MPT_INTERFACE(metatype) *global;
+	MPT_INTERFACE(metatype) *global = 0;
 	MPT_STRUCT(path) path = MPT_PATH_INIT;
 	int off, cret, bret, ncon;
 	
